@@ -195,6 +195,59 @@ pub fn run(r: &mut Report, ctx: &Ctx) {
         );
     }
 
+    if ctx.want("long-run") {
+        let total: u64 = if quick { 3 << 20 } else { 40 << 20 };
+        r.section(
+            "long-run",
+            "longer feeds in a rotation of piece lengths {1, 3, 64, 4096, 65537, 5, 1048576, 0, 2} compared with the byte-at-a-time reference at every power-of-two total (and one byte before / after it) and at the end: processed_len and all 32 finalizations; a size- or total-dependent fast path shows here; non-trivial = checkpoints",
+            &format!("{} MiB x 2 streams x 5 variants", total >> 20),
+            true,
+            |s| {
+                s.acc = par_for(10, 1, |idx, acc| {
+                    let st = [Stream::Mixed, Stream::Alpha][(idx / 5) as usize];
+                    fn go<V: Variant>(st: Stream, total: u64, acc: &mut Acc, key: u64) {
+                        let sizes = [1usize, 3, 64, 4096, 65537, 5, 1 << 20, 0, 2];
+                        let mut g = V::new_gen();
+                        let mut r = V::ref_gen();
+                        let mut buf = vec![0u8; 1 << 20];
+                        let mut off = 0u64;
+                        let mut i = 0usize;
+                        let mut next_cp: u64 = 1 << 10;
+                        while off < total {
+                            // never step over a checkpoint: cut the piece there
+                            let want = sizes[i % sizes.len()] as u64;
+                            i += 1;
+                            let k = want.min(total - off).min(if off < next_cp - 1 { next_cp - 1 - off } else if off < next_cp { 1 } else { 1 }) as usize;
+                            st.fill(off, &mut buf[..k]);
+                            g.update(&buf[..k]);
+                            r.feed_all(&buf[..k]);
+                            off += k as u64;
+                            acc.transitions += 1;
+                            if off + 1 == next_cp || off == next_cp || off == next_cp + 1 || off == total {
+                                acc.evals += 1;
+                                acc.nontrivial += 1;
+                                match crate::explore_free::judge_state_free::<V>(&g, &r) {
+                                    Ok(()) => {
+                                        acc.outcomes.insert(off);
+                                    }
+                                    Err(e) => {
+                                        acc.fail(key + off, "long-run", format!("{} {} after {off} bytes in the piece rotation: {e}", V::NAME, st.name()), json!({"kind": "long-run", "variant": V::NAME, "stream": st.name(), "n": off}));
+                                        return;
+                                    }
+                                }
+                                if off == next_cp + 1 {
+                                    next_cp *= 2;
+                                }
+                            }
+                        }
+                        acc.sample(key, || json!({"variant": V::NAME, "stream": st.name(), "fed": off, "pieces": i}));
+                    }
+                    with_variant!(idx % 5, go(st, total, acc, idx << 40))
+                });
+            },
+        );
+    }
+
     if ctx.want("splits") {
         let streams = [Stream::Mixed, Stream::A40e];
         let plan: Vec<(usize, usize)> = if quick { vec![(13, 3), (64, 3), (140, 2)] } else { vec![(13, 4), (64, 4), (140, 3), (600, 2)] };
